@@ -13,9 +13,10 @@ one lemma per Go function).
 * `Accessor`: chains of `$`, `@`, `.key`, `.*`, `[*]`, `.**{a to b}` (any bounds), subscripts
   `[i, j to k, last]` whose bounds are int32 literals or `last`, the literals `true false null "s" 1 1.5`,
   `.type()`, `.size()`;
-* `AccessorF`: the same plus filters `?(p)`, `p` built from `&&`, `||`, `!`, `is unknown`,
-  `exists(path)`, `path ⋈ path` for `== != < <= > >=` and `starts with`, `path like_regex "…"`, where the
-  operand paths are again `AccessorF` paths (so literals, `@.a.b`, nested filters …).
+* `AccessorF`: the same plus filters `?(p)` and predicates `p` in chain position (predicate paths such
+  as `$.a.b == 1` or `exists($.a)`), `p` built from `&&`, `||`, `!`, `is unknown`, `exists(path)`,
+  `path ⋈ path` for `== != < <= > >=` and `starts with`, `path like_regex "…"`, where the operand paths
+  are again `AccessorF` paths (so literals, `@.a.b`, nested filters …).
 
 **Theorems**
 * executor level (`xItem`, every context, state, value, result list, fuel):
@@ -322,10 +323,17 @@ private def p3 : Node :=
         (.binary .startsWith (some (cur (some (k "d" none)))) (some (.str "x".toList none)) none)) none))
       none)) <| some <| k "b" none
 
+/-- the predicate path `$.a.b == 1 || exists($.c[*])` -/
+private def p4 : Node :=
+  .binary .or
+    (some (.binary .eq (some p1) (some (.integer 1 none)) none))
+    (some (.unary .exists (some (.const .root (some (k "c" (some (.const .anyArray none)))))) none)) none
+
 example : Accessor p1 = true := by decide
 example : Accessor p2 = true := by decide
 example : AccessorF p3 = true := by decide
 example : Accessor p3 = false := by decide
+example : AccessorF p4 = true := by decide
 
 /-- lax, mismatching documents: the empty sequence -/
 example : run .query 30 ⟨p1, true, false⟩ (.int 1) {} = .items [] := rfl
@@ -344,6 +352,9 @@ example : run .query 40 ⟨p3, true, false⟩ (.obj [("a".toList, .arr [.int 1, 
 example : run .query 40 ⟨p3, true, false⟩
     (.obj [("a".toList, .arr [.obj [("b".toList, .int 7), ("c".toList, .null)], .obj [("b".toList, .int 0)]])]) {} =
     .items [.int 7, .int 0] := rfl
+/-- a predicate path over a document that fits neither operand: `false`, no error -/
+example : run .query 40 ⟨p4, true, true⟩ (.arr [.int 1]) {} = .items [.bool false] := rfl
+example : run .match_ 40 ⟨p4, true, true⟩ (.obj [("c".toList, .int 5)]) {} = .bool true := rfl
 /-- strict, same paths: the structural error; silent: nothing -/
 example : run .query 30 ⟨p1, false, false⟩ (.int 1) {} = .error .verbose := rfl
 example : run .query 30 ⟨p1, false, false⟩ (.int 1) { silent := true } = .items [] := rfl
